@@ -43,13 +43,27 @@ package mqttproxy
 // Leniency decisions (statement silent / two readings):
 //   * a takeover of a connected id while the broker is at its cap may be
 //     accepted or refused (counted by probes mqtt.takeover_at_cap_*);
-//   * ids that ever connected with CleanSession=true are not counted in the
-//     client-side "certainly connected" set (the broker's own session-delete
-//     watch may disconnect such a client at any time);
+//   * CleanSession=true is only used with client ids that occur once in a run
+//     (an id that reconnects with CleanSession while its old connection is torn
+//     down makes the broker panic in Session.close - a session/takeover matter,
+//     property C16), and such ids are not counted in the client-side
+//     "certainly connected" set (the broker's own session-delete watch may
+//     disconnect such a client at any time);
+//   * a client that leaves before reading its CONNACK always resets the
+//     connection (RST); a plain close is not generated because simnet fails the
+//     server's next write at once, which real TCP does not do after a FIN;
 //   * SetMaxConnection / reloads come from one admin task (their order is then
 //     known); server restarts (port/TLS changes) are not generated;
 //   * MaxAllowedConnection = 0 (unlimited) and the MQTT connection rate limiter
-//     are not generated.
+//     are not generated;
+//   * listener errors: only temporary Accept errors of the inner listener are
+//     injected (http-ll), which net/http retries.
+//
+// Build notes: limitlistener.go is deliberately not instrumented (net/http
+// calls Listener.Close / Conn.Close while holding its own real mutex; a gate
+// inside sync.Once there would park a goroutine under that mutex and hang the
+// bubble) - the gates that matter are in sem.Semaphore and simnet. Every
+// connection is dialled from a task with a name of its own (see c17Dial).
 
 import (
 	"bufio"
@@ -1235,17 +1249,18 @@ func TestVerifC17(t *testing.T) {
 		New:      func() interface{} { return &c17Scenario{} },
 		Exec:     c17Exec,
 		MaxSteps: 60000,
-		Rule: "scenario = kind (LimitListener under net/http | whole HTTPServer runtime | MQTT broker) + drawn cap 1-6 + 2-12 client tasks with drawn connection scripts (requests, idle, hold, close/reset/half-close; MQTT: ids from a pool slightly larger than the cap, takeovers, lingering connections, clients leaving before CONNACK) + 0-4 cap changes (HTTP); " +
+		Rule: "scenario = kind (LimitListener under net/http | whole HTTPServer runtime | MQTT broker) + drawn cap 1-6 + 2-12 client tasks with drawn connection scripts (requests, idle, hold, close/reset/half-close; MQTT: ids from a pool slightly larger than the cap, takeovers, lingering connections, clients leaving before CONNACK) + 0-4 cap changes (HTTP) + temporary Accept errors (http-ll); " +
 			"non-trivial = a client was held back at the cap (HTTP) / a CONNECT was refused with server-unavailable (MQTT); distinct = distinct histories of connect/accept/refuse/close/resize events",
 		Real: []string{"pkg/util/limitlistener (LimitListener, limitListenerConn)", "pkg/util/sem (Semaphore.SetMaxCount)", "golang.org/x/sync/semaphore", "net/http.Server",
 			"pkg/object/httpserver (HTTPServer.Init/Inherit/Close, runtime fsm, reload, startServer, mux)", "pkg/object/mqttproxy (Broker, Client, SessionManager, Session, TopicManager, mock storage)", "paho packets codec"},
 		Stub: []string{"TCP: simnet (listeners, connections, close/reset/half-close, segmentation, latency)", "github.com/megaease/grace (ListenHook hands the runtime a simnet listener)", "quic-go (not used)",
-			"sync/atomic of the instrumented files -> simsync/simatomic (same semantics + gates)", "HTTP and MQTT clients (harness)"},
+			"sync/atomic of the instrumented files -> simsync/simatomic (same semantics + gates)", "multi-case selects of mqttproxy polled in a recorded order", "HTTP and MQTT clients (harness)"},
 		Assumptions: []string{
 			"a maxConnections change counts as applied from the first quiescent instant after the call at which open connections (+1 for a slot reserved by the waiting Accept) <= new cap; until then only open <= max(caps configured since the last applied one) is asserted",
 			"cap changes are issued by one admin task; server restarts (port / TLS / keep-alive changes) are not generated",
 			"a takeover of a connected MQTT client id while the broker is at its cap may be accepted or refused (statement silent); counted by probes",
-			"client ids that ever used CleanSession=true are not counted in the client-side connected set (the broker's session-delete watch may disconnect them)",
+			"CleanSession=true only with client ids used once per run; such ids are not counted in the client-side connected set (the broker's session-delete watch may disconnect them)",
+			"a client leaving before its CONNACK resets the connection (RST); plain close before CONNACK is not generated (simnet fails the peer's next write immediately, TCP does not)",
 			"maxAllowedConnection=0 (unlimited) and the MQTT connection rate limiter are not generated",
 		},
 	})
